@@ -23,7 +23,7 @@ class Prop(BaseProp):
                 "listings_permuted"]
 
     def n_cases(self, tier):
-        return 300 if tier == "quick" else 5000
+        return 1500 if tier == "quick" else 20000
 
     def setup_worker(self):
         runner.cminx()
